@@ -53,8 +53,12 @@ CHECKS["C11"] = dict(
        "get_compiled_pattern/purge preserve the cache invariant and write only the cache (frame), so results are independent of any "
        "history. All patterns, texts, histories - no bound. The same contracts are also evaluated at run time on the real code "
        "(bounded, reported separately). That the EXPORTED text compile() feeds to re denotes the same regex as the pattern is "
-       "__repr__'s assumed contract: bounded stand-in B4 (quotes, backslash runs, control and non-BMP characters), run here.",
-  note=G5NOTE, technique="contract-based deductive verification (wiring contracts against an axiomatised re API; EUF/LIA in z3); bounded stand-in B4 for __repr__",
+       "__repr__'s contract, decided here by F6: the real function equals a unit-wise reference (unit = a character, or a backslash "
+       "and the character it escapes) on every string up to length 7 over representatives of the character classes its two regexes "
+       "and repr can tell apart, and for EVERY code point the image of each unit parses (CPython's parser, 11 kinds of context) to "
+       "what the unit parses to - complete modulo the reviewed body form, which is compared each run; B4 (bounded, end to end: "
+       "quotes, backslash runs, control and non-BMP characters, user-written regexes) runs as well.",
+  note=G5NOTE, technique="contract-based deductive verification (wiring contracts against an axiomatised re API; EUF/LIA in z3); complete finite decision F6 + bounded stand-in B4 for __repr__",
   design_ref="DESIGN.md section 8 (C11)")
 CHECKS["C12"] = dict(
   category="proof",
